@@ -50,6 +50,44 @@ def _fd_arg(a):
     return fd, path
 
 
+def _content_from_events(events, path):
+    """Content of a store file as the recorded events so far define it; None when it depends on bytes the trace did not show."""
+    cont = {}
+    for e in events:
+        k = e[0]
+        if k == "open":
+            _, p, creat, trunc, excl = e
+            if trunc or excl:
+                cont[p] = bytearray()
+            else:
+                cont.setdefault(p, None)
+        elif k == "write":
+            _, p, off, data, append = e
+            b = cont.get(p)
+            if b is None:
+                continue
+            if append:
+                off = len(b)
+            if len(b) < off:
+                b.extend(b"\0" * (off - len(b)))
+            b[off:off + len(data)] = data
+        elif k == "truncate":
+            b = cont.get(e[1])
+            if b is not None:
+                n = e[2]
+                if n <= len(b):
+                    del b[n:]
+                else:
+                    b.extend(b"\0" * (n - len(b)))
+        elif k == "rename":
+            cont[e[2]] = cont.pop(e[1], None)
+        elif k == "link":
+            cont[e[2]] = None if cont.get(e[1]) is None else bytearray(cont[e[1]])
+        elif k == "unlink":
+            cont.pop(e[1], None)
+    return cont.get(path)
+
+
 def record(argv, root, cwd, env=None, timeout=120):
     """Run argv under strace; returns (returncode, events, raw line count)."""
     log = os.path.join(cwd, "strace.log")
@@ -252,7 +290,42 @@ def parse(lines, root, cwd):
             path = (fds.get((pid, fd)) or {}).get("path") or fpath
             if under(path):
                 events.append(("fsync", path))
-        elif call in ("copy_file_range", "sendfile"):
+        elif call == "sendfile":
+            # in-kernel copy (shutil.copyfile): a write to the output descriptor whose data is the input file's content at this point of the
+            # trace, reconstructed from the events recorded so far; anything that cannot be reconstructed stays a recorder error
+            ofd, opath = _fd_arg(a[0])
+            ifd, ipath = _fd_arg(a[1])
+            ost = fds.get((pid, ofd))
+            ist = fds.get((pid, ifd))
+            opath = (ost or {}).get("path") or opath
+            ipath = (ist or {}).get("path") or ipath
+            if not under(opath):
+                continue
+            if ret == 0:
+                continue
+            mo = re.match(r"^\[(\d+)\]", a[2].strip())
+            if a[2].strip() == "NULL":
+                if ist is None:
+                    raise RecorderError("sendfile from an fd whose open was not seen: %s" % ln[:100])
+                ioff = ist["off"]
+                ist["off"] += ret
+            elif mo:
+                ioff = int(mo.group(1))
+            else:
+                raise RecorderError("unmodelled data path: %s" % ln[:100])
+            src = _content_from_events(events, ipath) if under(ipath) else None
+            if src is None:
+                try:
+                    with open(ipath, "rb") as fh:  # an input outside the store is not changed by the traced operation
+                        src = fh.read() if not under(ipath) else None
+                except OSError:
+                    src = None
+            if src is None or len(src) < ioff + ret or ost is None:
+                raise RecorderError("unmodelled data path (input content unknown): %s" % ln[:100])
+            data = bytes(src[ioff:ioff + ret])
+            events.append(("write", opath, ost["off"], data, ost["append"]))
+            ost["off"] += len(data)
+        elif call == "copy_file_range":
             raise RecorderError("unmodelled data path: %s" % ln[:100])
         elif call == "mmap":
             if "MAP_SHARED" in args and "PROT_WRITE" in args:
